@@ -620,5 +620,6 @@ func c08r9(c *Ctx) {
 
 // isWrapperFn: synthetic method wrappers / thunks / bound-method closures (instances of generics are synthetic too, but real code).
 func isWrapperFn(fn *ssa.Function) bool {
-	return fn.Synthetic != "" && !strings.HasPrefix(fn.Synthetic, "instance of")
+	s := fn.Synthetic
+	return strings.HasPrefix(s, "wrapper") || strings.HasPrefix(s, "bound") || strings.HasPrefix(s, "thunk") || strings.HasPrefix(s, "from type") || strings.HasPrefix(s, "loaded from")
 }
